@@ -25,6 +25,7 @@ f32 = np.float32
 
 def groups(tier, seed):
     return ["flip_enum", "flip_enum_parallel", "categorical_enum_parallel", "flip_mvd", "flip_reinforce", "normal_reparam", "uniform_reparam",
+            "normal_reparam_bcast", "normal_reparam_bcast2", "uniform_reparam_bcast",
             "mvn_diag_reparam", "normal_reinforce", "compose_enum_reparam", "compose_reinforce_enum", "flip_enum_batched", "flip_mvd_batched",
             "cond_continuation", "seed_jit:flip_enum", "seed_jit:normal_reparam", "mvmap:flip_enum"]
 
@@ -135,8 +136,37 @@ def run_group(g, gid):
         g.ok("categorical_enum_parallel: zero variance", not uses_outcomes(T, list(T.outs)))
         return
 
-    if kind in ("normal_reparam", "uniform_reparam", "mvn_diag_reparam"):
-        if kind == "normal_reparam":
+    if kind in ("normal_reparam", "uniform_reparam", "mvn_diag_reparam", "normal_reparam_bcast", "normal_reparam_bcast2", "uniform_reparam_bcast"):
+        eshape = ()
+        if kind == "normal_reparam_bcast":
+            # scalar location, vector scale: one INDEPENDENT noise per component of the broadcast shape
+            def prog(th):
+                x = adev.normal_reparam(th[0], th[1:3])
+                return x[0] * x[1] + (x[0] + x[1]) ** 2 * th[0]
+            def pure(eps, th):
+                x = th[0] + th[1:3] * eps
+                return x[0] * x[1] + (x[0] + x[1]) ** 2 * th[0]
+            ex = np.asarray([0.3, 1.5, 0.5], dtype=np.float32)
+            eshape = (2,)
+        elif kind == "normal_reparam_bcast2":
+            def prog(th):
+                x = adev.normal_reparam(th[0:2], th[2])
+                return x[0] * x[1] + jnp.sin(x[0])
+            def pure(eps, th):
+                x = th[0:2] + th[2] * eps
+                return x[0] * x[1] + jnp.sin(x[0])
+            ex = np.asarray([0.3, -0.2, 1.5], dtype=np.float32)
+            eshape = (2,)
+        elif kind == "uniform_reparam_bcast":
+            def prog(th):
+                x = adev.uniform_reparam(th[0], th[0] + th[1:3])
+                return x[0] * x[1] + th[1] * x[0]
+            def pure(u, th):
+                x = th[0] + th[1:3] * u
+                return x[0] * x[1] + th[1] * x[0]
+            ex = np.asarray([0.3, 1.5, 0.5], dtype=np.float32)
+            eshape = (2,)
+        elif kind == "normal_reparam":
             def prog(th):
                 x = adev.normal_reparam(th[0] * 2.0, th[1])
                 return x * x * th[0] + jnp.sin(x)
@@ -155,11 +185,12 @@ def run_group(g, gid):
         else:
             def prog(th):
                 x = adev.multivariate_normal_diag_reparam(th[:2], th[2:])
-                return jnp.sum(x * x) + x[0] * th[3]
+                return jnp.sum(x * x) + x[0] * th[3] + x[0] * x[1]
             def pure(eps, th):
                 x = th[:2] + th[2:] * eps
-                return jnp.sum(x * x) + x[0] * th[3]
+                return jnp.sum(x * x) + x[0] * th[3] + x[0] * x[1]
             ex = np.asarray([0.3, -0.2, 1.5, 0.5], dtype=np.float32)
+            eshape = (2,)
         E = expectation(prog)
         T = g.try_trace(f"{kind}: jvp_estimate traces", lambda th, dth: (lambda d: (d.primal, d.tangent))(E.jvp_estimate(Dual(th, dth))),
                         ex, np.ones_like(ex))
@@ -171,8 +202,12 @@ def run_group(g, gid):
         site = T.sites[0]
         noise = site.outs[0]
         sa, _ = gfi._site_args(site)
-        base = "uniform(0,1)" if kind == "uniform_reparam" else "normal(0,1)"
+        base = "uniform(0,1)" if kind.startswith("uniform_reparam") else "normal(0,1)"
         lo, hi = (0, 1)
+        g.ok(f"{kind}: one independent noise per component of the (broadcast) value: noise shape {eshape}",
+             tuple(sj.obj(noise).shape) == eshape, f"noise shape {tuple(sj.obj(noise).shape)}")
+        if tuple(sj.obj(noise).shape) != eshape:
+            return
         g.holds(f"{kind}: the noise is a draw from {base} of the event shape, independent of theta",
                 z3.And(*[x == lo for x in sj.terms(sa[0])] + [x == hi for x in sj.terms(sa[1])]))
         R = sj.sym_trace(lambda n, th, dth: jax.jvp(lambda t: pure(n, t), (th,), (dth,)), np.zeros(sj.obj(noise).shape, np.float32), ex, np.ones_like(ex),
